@@ -14,7 +14,8 @@ use barter_data::{
     event::{MarketEvent, MarketIter},
     exchange::{
         Connector, StreamSelector,
-        binance::{book::l1::BinanceOrderBookL1, futures::BinanceFuturesUsd, spot::BinanceSpot, trade::BinanceTrade},
+        binance::{book::l1::BinanceOrderBookL1, futures::{BinanceFuturesUsd, liquidation::BinanceLiquidation}, spot::BinanceSpot, trade::BinanceTrade},
+        bitfinex::message::BitfinexMessage,
         bitmex::{Bitmex, trade::BitmexTrade},
         bybit::{futures::BybitPerpetualsUsd, message::BybitMessage, spot::BybitSpot},
         coinbase::{Coinbase, trade::CoinbaseTrade},
@@ -36,6 +37,7 @@ use barter_data::{
     subscription::{
         SubKind, Subscription, SubscriptionKind, SubscriptionMeta,
         book::{OrderBookL1, OrderBooksL1},
+        liquidation::{Liquidation, Liquidations},
         trade::{PublicTrade, PublicTrades},
     },
     transformer::{ExchangeTransformer, stateless::StatelessTransformer},
@@ -72,6 +74,10 @@ const L_KEY: &str = "C13.bounded.event_carries_subscribed_instrument_key";
 const L_EXCHANGE: &str = "C13.bounded.event_carries_exchange_id";
 const L_FIELDS: &str = "C13.bounded.price_amount_side_as_stated";
 const L_TIME: &str = "C13.bounded.exchange_time_as_stated";
+// the rest of the payload: trade id (where the message states one), L1 last update time, liquidation side / price / quantity / time, Bitfinex signed amounts
+const L_PAYLOAD: &str = "C13.bounded.payload_as_stated_in_message";
+// a book ticker with an empty side (the venue reports it as price 0): THAT side is None, the other side is the stated level
+const L_ONE_SIDED: &str = "C13.bounded.l1_one_sided_book";
 const L_UNSUB: &str = "C13.bounded.unsubscribed_market_is_unidentifiable";
 const L_IDX_EVENT: &str = "C13.bounded.indexed_event_carries_index_of_its_instrument";
 const L_IDX_DISTINCT: &str = "C13.bounded.indexed_distinct_instruments_distinct_indices";
@@ -80,7 +86,7 @@ const L_IDX_DISTINCT: &str = "C13.bounded.indexed_distinct_instruments_distinct_
 #[derive(Clone, Copy, Debug, PartialEq, Eq)]
 enum V { BinanceSpot, BinanceFut, Okx, Kraken, Coinbase, BybitSpot, BybitPerp, GateSpot, GateFutUsd, GateFutBtc, GatePerpUsd, GatePerpBtc, GateOpt, Bitmex }
 #[derive(Clone, Copy, Debug, PartialEq, Eq)]
-enum SK { Trades, L1 }
+enum SK { Trades, L1, Liq }
 
 #[derive(Clone, Copy, Debug, PartialEq, Eq)]
 enum IK { Spot, Perp, Fut(i64), Opt { call: bool, strike: i64, expiry: i64, american: bool } }
@@ -158,6 +164,7 @@ fn payload(v: V, sk: SK, m: &Msg) -> String {
         (V::BinanceSpot, SK::Trades) => json!({"e":"trade","E":t0.ts_ms + 3,"s":mk,"t":t0.id,"p":t0.price,"q":t0.amount,"b":1,"a":2,"T":t0.ts_ms,"m":!t0.buy,"M":true}),
         (V::BinanceFut, SK::Trades) => json!({"e":"trade","E":t0.ts_ms + 3,"T":t0.ts_ms,"s":mk,"t":t0.id,"p":t0.price,"q":t0.amount,"X":"MARKET","m":!t0.buy}),
         (V::BinanceSpot, SK::L1) => json!({"u":22606535573u64,"s":mk,"b":m.bid.0,"B":m.bid.1,"a":m.ask.0,"A":m.ask.1}),
+        (V::BinanceFut, SK::Liq) => json!({"e":"forceOrder","E":t0.ts_ms + 5,"o":{"s":mk,"S":if t0.buy { "BUY" } else { "SELL" },"o":"LIMIT","f":"IOC","q":t0.amount,"p":t0.price,"ap":"18990.00","X":"FILLED","l":"0.001","z":"0.002","T":t0.ts_ms}}),
         (V::BinanceFut, SK::L1) => json!({"e":"bookTicker","u":22606535573u64,"E":m.ts_ms + 2,"T":m.ts_ms,"s":mk,"b":m.bid.0,"B":m.bid.1,"a":m.ask.0,"A":m.ask.1}),
         (V::Okx, SK::Trades) => json!({"arg":{"channel":"trades","instId":mk},"data":m.trades.iter().map(|t| json!({"instId":mk,"tradeId":t.id.to_string(),"px":t.price,"sz":t.amount,"side":side_lc(t),"ts":t.ts_ms.to_string()})).collect::<Vec<_>>()}),
         (V::Kraken, SK::Trades) => json!([0, m.trades.iter().map(|t| json!([t.price, t.amount, format!("{}.{:03}000", t.ts_ms / 1000, t.ts_ms % 1000), if t.buy { "b" } else { "s" }, "l", ""])).collect::<Vec<_>>(), "trade", mk]),
@@ -174,24 +181,61 @@ fn payload(v: V, sk: SK, m: &Msg) -> String {
 
 // ------------------------------------------------------------------------------------------------- observation
 #[derive(Debug, PartialEq)]
-enum Fields { Trade { price: f64, amount: f64, side: Side }, L1 { bid: Option<(Decimal, Decimal)>, ask: Option<(Decimal, Decimal)> } }
-trait Observe { fn fields(&self) -> Fields; }
-impl Observe for PublicTrade { fn fields(&self) -> Fields { Fields::Trade { price: self.price, amount: self.amount, side: self.side } } }
+enum Fields { Trade { price: f64, amount: f64, side: Side }, L1 { bid: Option<(Decimal, Decimal)>, ask: Option<(Decimal, Decimal)> }, Liq { side: Side, price: f64, quantity: f64 } }
+trait Observe {
+    fn fields(&self) -> Fields;
+    /// the trade id carried by the event
+    fn id(&self) -> Option<String> { None }
+    /// a second time field of the event kind (L1: last update time, liquidation: time), in ms
+    fn kind_time_ms(&self) -> Option<i64> { None }
+}
+impl Observe for PublicTrade {
+    fn fields(&self) -> Fields { Fields::Trade { price: self.price, amount: self.amount, side: self.side } }
+    fn id(&self) -> Option<String> { Some(self.id.clone()) }
+}
 impl Observe for OrderBookL1 {
     fn fields(&self) -> Fields { Fields::L1 { bid: self.best_bid.map(|l| (l.price, l.amount)), ask: self.best_ask.map(|l| (l.price, l.amount)) } }
+    fn kind_time_ms(&self) -> Option<i64> { Some(self.last_update_time.timestamp_millis()) }
+}
+impl Observe for Liquidation {
+    fn fields(&self) -> Fields { Fields::Liq { side: self.side, price: self.price, quantity: self.quantity } }
+    fn kind_time_ms(&self) -> Option<i64> { Some(self.time.timestamp_millis()) }
+}
+
+/// what the venue states in one normalised event's worth of a message: the fields, the exchange time (if the message carries one), the
+/// trade id (if the message states one), the event kind's own time field (L1 last update time / liquidation time), one-sided book?
+struct Stated { fields: Fields, time: Option<i64>, id: Option<String>, kind_time: Option<i64>, one_sided: bool }
+
+/// the trade id as the payload built by `payload` states it (Kraken trades carry none)
+fn stated_id(v: V, t: &Tr) -> Option<String> {
+    match v {
+        V::Kraken => None,
+        V::BybitSpot | V::BybitPerp | V::Bitmex => Some(format!("id-{}", t.id)),
+        _ => Some(t.id.to_string()),
+    }
 }
 
 /// what the venue states in message `m` (one entry per normalised event)
-fn stated(v: V, sk: SK, m: &Msg) -> Vec<(Fields, Option<i64>)> {
+fn stated(v: V, sk: SK, m: &Msg) -> Vec<Stated> {
     let d = |s: &str| Decimal::from_str(s).unwrap();
+    // a book side reported with price 0 is an empty side
+    let level = |(price, amount): (&str, &str)| (!d(price).is_zero()).then(|| (d(price), d(amount)));
     match sk {
-        SK::L1 => vec![(Fields::L1 { bid: Some((d(m.bid.0), d(m.bid.1))), ask: Some((d(m.ask.0), d(m.ask.1))) }, l1_has_time(v).then_some(m.ts_ms))],
+        SK::L1 => {
+            let (bid, ask) = (level(m.bid), level(m.ask));
+            let time = l1_has_time(v).then_some(m.ts_ms);
+            vec![Stated { one_sided: bid.is_none() || ask.is_none(), fields: Fields::L1 { bid, ask }, time, id: None, kind_time: time }]
+        }
         SK::Trades => m.trades.iter().take(if multi(v) { usize::MAX } else { 1 }).map(|t| {
             let amount: f64 = t.amount.parse().unwrap();
             // Gateio contract trades state a signed size: sign = taker side
             let signed = matches!(v, V::GateFutUsd | V::GateFutBtc | V::GatePerpUsd | V::GatePerpBtc | V::GateOpt) && !t.buy;
-            (Fields::Trade { price: t.price.parse().unwrap(), amount: if signed { -amount } else { amount }, side: if t.buy { Side::Buy } else { Side::Sell } }, Some(t.ts_ms))
+            Stated { fields: Fields::Trade { price: t.price.parse().unwrap(), amount: if signed { -amount } else { amount }, side: if t.buy { Side::Buy } else { Side::Sell } }, time: Some(t.ts_ms), id: stated_id(v, t), kind_time: None, one_sided: false }
         }).collect(),
+        SK::Liq => {
+            let t = &m.trades[0];
+            vec![Stated { fields: Fields::Liq { side: if t.buy { Side::Buy } else { Side::Sell }, price: t.price.parse().unwrap(), quantity: t.amount.parse().unwrap() }, time: Some(t.ts_ms), id: None, kind_time: Some(t.ts_ms), one_sided: false }]
+        }
     }
 }
 
@@ -235,21 +279,31 @@ fn judge<K: PartialEq + Debug, E: Observe>(st: &mut St, v: V, sk: SK, l_key: &'s
             fail(L_SUBSCRIBED, format!("{} outputs: {:?}", out.len(), out.iter().map(|r| match r { Ok(ev) => format!("event for {:?}", ev.instrument), Err(e) => format!("error {e:?}") }).collect::<Vec<_>>()), format!("{} event(s) for instrument #{:?}", want.len(), subscribed));
             continue;
         }
-        for (ev, (fields, time)) in out.into_iter().flatten().zip(want) {
+        for (ev, Stated { fields, time, id, kind_time, one_sided }) in out.into_iter().flatten().zip(want) {
             if !subscribed.iter().any(|j| keys[*j] == ev.instrument) {
                 fail(l_key, format!("event carries instrument key {:?}", ev.instrument), format!("key of subscription #{:?}: {:?}", subscribed, subscribed.iter().map(|j| &keys[*j]).collect::<Vec<_>>()));
             }
             if ev.exchange != exchange_id(v) { fail(L_EXCHANGE, format!("{:?}", ev.exchange), format!("{:?}", exchange_id(v))); }
-            if ev.kind.fields() != fields { fail(L_FIELDS, format!("{:?}", ev.kind.fields()), format!("{fields:?}")); }
+            if ev.kind.fields() != fields {
+                let label = if one_sided { L_ONE_SIDED } else if sk == SK::Liq { L_PAYLOAD } else { L_FIELDS };
+                fail(label, format!("{:?}", ev.kind.fields()), format!("{fields:?}{}", if one_sided { " (a side stated with price 0 is empty: None for THAT side, the stated level for the other)" } else { "" }));
+            }
+            // Kraken and Gateio spot state the time as a decimal fraction: allow the float rounding
+            let tol = if matches!(v, V::Kraken | V::GateSpot) { 1 } else { 0 };
             if let Some(ts) = time {
-                // Kraken and Gateio spot state the time as a decimal fraction: allow the float rounding
-                let tol = if matches!(v, V::Kraken | V::GateSpot) { 1 } else { 0 };
                 if (ev.time_exchange.timestamp_millis() - ts).abs() > tol { fail(L_TIME, format!("time_exchange {} ms", ev.time_exchange.timestamp_millis()), format!("{ts} ms")); }
+            }
+            if let (Some(ts), Some(got)) = (kind_time, ev.kind.kind_time_ms()) {
+                if (got - ts).abs() > tol { fail(L_PAYLOAD, format!("{} of the event kind: {got} ms", if sk == SK::L1 { "last_update_time" } else { "time" }), format!("{ts} ms (the time the message states)")); }
+            }
+            if let Some(id) = id {
+                if ev.kind.id().as_deref() != Some(id.as_str()) { fail(L_PAYLOAD, format!("trade id {:?}", ev.kind.id()), format!("trade id {id:?} (as stated in the message)")); }
             }
         }
     }
 }
 
+const EMPTY_SIDE: (&str, &str) = ("0.00000000", "0.00000000");
 const PRICES: [(&str, &str); 5] = [("60000.5", "0.25"), ("0.0125", "100000"), ("1287", "3"), ("24564.5", "200"), ("150.25", "12")];
 
 /// messages for a subscription list: every subscribed market, every market of the universe that is not subscribed, and
@@ -264,8 +318,50 @@ fn messages(v: V, list: &[Inst], universe: &[Inst], salt: usize) -> Vec<Msg> {
         let trades = (0..n).map(|j| { let (price, amount) = PRICES[(k + j + salt) % PRICES.len()]; Tr { price, amount, buy: (k + j + salt) % 2 == 0, ts_ms: 1_669_843_487_724 + (k * 1000 + j * 7 + salt) as i64, id: (1000 + k * 10 + j) as u64 } }).collect();
         let (bp, ba) = PRICES[(k + salt) % PRICES.len()];
         let (ap, aa) = PRICES[(k + salt + 1) % PRICES.len()];
-        Msg { market, trades, bid: (bp, ba), ask: (ap, aa), ts_ms: 1_669_843_487_724 + (k * 1000 + salt) as i64 }
+        // book shapes: both sides, no bids, no asks, both sides, empty book (an empty side is reported as price 0 / amount 0)
+        let (bid, ask) = match (k + salt) % 5 { 1 => (EMPTY_SIDE, (ap, aa)), 2 => ((bp, ba), EMPTY_SIDE), 4 => (EMPTY_SIDE, EMPTY_SIDE), _ => ((bp, ba), (ap, aa)) };
+        Msg { market, trades, bid, ask, ts_ms: 1_669_843_487_724 + (k * 1000 + salt) as i64 }
     }).collect()
+}
+
+/// Bitfinex trades `[CHANNEL_ID, "te", [ID, TIME, AMOUNT, PRICE]]`: the amount is signed (negative = sell); the subscription side is keyed by
+/// the channel id the venue assigns in its subscription response (needs the socket), so only the MESSAGE side is driven here: real serde
+/// deserialisation + real `MarketIter::from`, with the key and exchange id it is handed
+fn bitfinex_payload(st: &mut St) {
+    let (channel, key) = (420191u32, 7u32);
+    for (k, (price, amount)) in PRICES.iter().enumerate() {
+        for buy in [true, false] {
+            st.n += 1;
+            let (id, ts) = (1_225_484_398u64 + k as u64, 1_665_452_200_022i64 + 13 * k as i64);
+            let payload = format!("[{channel},\"te\",[{id},{ts},{}{amount},{price}]]", if buy { "" } else { "-" });
+            let input = || format!("Bitfinex trade message {payload} handed to MarketIter::from with exchange id Bitfinex and instrument key {key}");
+            let msg = match serde_json::from_str::<BitfinexMessage>(&payload) {
+                Ok(msg) => msg,
+                Err(e) => { fail_once(st, L_PAYLOAD, &input, format!("payload rejected by the connector's message type: {e}"), "deserialised".into()); continue; }
+            };
+            if msg.id() != Some(SubscriptionId::from(channel.to_string())) { fail_once(st, L_SUBSCRIBED, &input, format!("message identified as {:?}", msg.id()), format!("the channel id {channel}")); }
+            let out = MarketIter::<u32, PublicTrade>::from((ExchangeId::Bitfinex, key, msg)).0;
+            let want = Fields::Trade { price: price.parse().unwrap(), amount: amount.parse().unwrap(), side: if buy { Side::Buy } else { Side::Sell } };
+            match out.as_slice() {
+                [Ok(ev)] => {
+                    if ev.instrument != key { fail_once(st, L_KEY, &input, format!("event carries instrument key {:?}", ev.instrument), format!("{key}")); }
+                    if ev.exchange != ExchangeId::Bitfinex { fail_once(st, L_EXCHANGE, &input, format!("{:?}", ev.exchange), "Bitfinex".into()); }
+                    if ev.kind.fields() != want { fail_once(st, L_PAYLOAD, &input, format!("{:?}", ev.kind.fields()), format!("{want:?} (the sign of AMOUNT is the side, its magnitude the amount)")); }
+                    if ev.time_exchange.timestamp_millis() != ts { fail_once(st, L_TIME, &input, format!("time_exchange {} ms", ev.time_exchange.timestamp_millis()), format!("{ts} ms")); }
+                    if ev.kind.id != id.to_string() { fail_once(st, L_PAYLOAD, &input, format!("trade id {:?}", ev.kind.id), format!("trade id {:?}", id.to_string())); }
+                }
+                other => fail_once(st, L_SUBSCRIBED, &input, format!("{} outputs: {other:?}", other.len()), "one trade event".into()),
+            }
+        }
+    }
+    // a heartbeat carries no trade
+    st.n += 1;
+    let payload = format!("[{channel},\"hb\"]");
+    let input = || format!("Bitfinex heartbeat {payload}");
+    match serde_json::from_str::<BitfinexMessage>(&payload) {
+        Ok(msg) => { let out = MarketIter::<u32, PublicTrade>::from((ExchangeId::Bitfinex, key, msg)).0; if !out.is_empty() { fail_once(st, L_PAYLOAD, &input, format!("{} outputs", out.len()), "no event".into()); } }
+        Err(e) => fail_once(st, L_PAYLOAD, &input, format!("payload rejected by the connector's message type: {e}"), "deserialised".into()),
+    }
 }
 
 fn same<T>(_: PhantomData<T>, _: PhantomData<T>) {}
@@ -338,7 +434,7 @@ struct XI { v: V, i: Inst }
 #[derive(Clone, Copy, Debug, PartialEq, Eq)]
 struct US { x: XI, sk: SK }
 
-fn sub_kind(sk: SK) -> SubKind { match sk { SK::Trades => SubKind::PublicTrades, SK::L1 => SubKind::OrderBooksL1 } }
+fn sub_kind(sk: SK) -> SubKind { match sk { SK::Trades => SubKind::PublicTrades, SK::L1 => SubKind::OrderBooksL1, SK::Liq => SubKind::Liquidations } }
 /// subscription kinds of this module that the venue serves
 fn sks(v: V) -> &'static [SK] { if matches!(v, V::BinanceSpot | V::BinanceFut | V::Kraken) { &[SK::Trades, SK::L1] } else { &[SK::Trades] } }
 
@@ -664,6 +760,7 @@ pub fn run(seed: u64, thorough: bool) -> u64 {
     venue!(st, lists, V::BinanceFut, SK::Trades, BinanceFuturesUsd, PublicTrades, PublicTrades, BinanceTrade, true);
     venue!(st, lists, V::BinanceSpot, SK::L1, BinanceSpot, OrderBooksL1, OrderBooksL1, BinanceOrderBookL1, true);
     venue!(st, lists, V::BinanceFut, SK::L1, BinanceFuturesUsd, OrderBooksL1, OrderBooksL1, BinanceOrderBookL1, true);
+    venue!(st, lists, V::BinanceFut, SK::Liq, BinanceFuturesUsd, Liquidations, Liquidations, BinanceLiquidation, true);
     venue!(st, lists, V::Okx, SK::Trades, Okx, PublicTrades, PublicTrades, OkxTrades, true);
     // FIXED DEFECT (was a finding on the tree as found; now always checked): kraken_market() lower-cases the computed market
     // ("btc/usdt") while Kraken names the pair in upper case in its messages ("XBT/USD", see the connector's own payload examples), and the
@@ -682,6 +779,7 @@ pub fn run(seed: u64, thorough: bool) -> u64 {
     venue!(st, lists, V::GatePerpBtc, SK::Trades, GateioPerpetualsBtc, PublicTrades, PublicTrades, GateioFuturesTrades, true);
     venue!(st, lists, V::GateOpt, SK::Trades, GateioOptions, PublicTrades, PublicTrades, GateioFuturesTrades, true);
     venue!(st, lists, V::Bitmex, SK::Trades, Bitmex, PublicTrades, PublicTrades, BitmexTrade, true);
+    bitfinex_payload(st);
     run_indexed(st, seed, thorough);
     st.n
 }
